@@ -98,6 +98,7 @@ type pubConcRun struct {
 	final  string
 	calls  [][]concCallOut
 	recs   [][]*pubRec // the publication each ok call returned
+	order  [][2]int    // calls in the order they returned
 	events []pubRec
 	finalR *pubRec
 	initV  string
@@ -200,6 +201,7 @@ func (c *pubConc) exec() (run pubConcRun, failure string) {
 			})
 			out.trace = strings.Join(th.trace, "")
 			out.times = append([]int64(nil), th.times...)
+			run.order = append(run.order, [2]int{i, k}) // one logical thread runs at a time
 		})
 		ths[i] = th
 	}
@@ -376,6 +378,30 @@ func (c *pubConc) Check(m *lib.Monitor, code string) {
 			break
 		}
 	}
+	// The version / acknowledge protocol, on a two-field register (current version, current receipt) that follows
+	// the committed calls in the order they returned (a call's commit is its last atomic step and one logical
+	// thread runs at a time, so this is the order of the commits): a call that names a version is only ever
+	// applied to that version, and a publication that carries an ACCEPTED / REJECTED receipt is not acknowledged
+	// again. Independent of the model: only what the calls were given and what they returned is used.
+	curV, curReceipt := run.initV, int32(0)
+	var last *pubRec
+	for _, ik := range run.order {
+		call, out, rec := c.Progs[ik[0]][ik[1]], run.calls[ik[0]][ik[1]], run.recs[ik[0]][ik[1]]
+		if rec == nil || !strings.HasPrefix(out.ret, "ok=") || !strings.Contains(out.trace, "l") {
+			continue // refused, or answered without a write (allow_acknowledged)
+		}
+		method := map[string]string{"update": "UpdatePublication", "ack": "AcknowledgePublication"}[call.Op]
+		if named := c.vOf(run.initV, call.VRef); named != "" && named != curV {
+			m.Violate(sig+method+"/applied-to-another-version", "a call conditional on one version of the publication was applied to (and answered ok on) another version: the write that came in between is lost without notice", c, "FailedPrecondition / Aborted: the request names version "+named+", the stored version at its commit was "+curV, out.ret)
+		}
+		if call.Op == "ack" && (curReceipt == 2 || curReceipt == 3) {
+			m.Violate(sig+method+"/acknowledged-twice", "an acknowledge was committed on a publication that already carried an ACCEPTED / REJECTED receipt", c, "FailedPrecondition (or the acknowledged publication, unchanged, with allow_acknowledged)", out.ret)
+		}
+		curV, curReceipt, last = rec.Version, rec.Receipt, rec
+	}
+	if last != nil && last.enc() != run.finalR.enc() {
+		m.Violate(sig+"stored/not-the-last-committed-write", "the stored publication is not the one the last committed call returned", c, last.enc(), run.final)
+	}
 	for i, cs := range run.calls {
 		for k, out := range cs {
 			call := c.Progs[i][k]
@@ -431,8 +457,8 @@ func init() {
 	decoders["pub/conc"] = decoder[pubConc]()
 	builders = append(builders, func(f lib.Flags, res *lib.Result, rng *rand.Rand) []*section {
 		s := &section{name: "pub/conc",
-			tie: res.Tie("publication.ModelServer overlapping Update/Acknowledge on one publication (forced schedules)", "K4", "one publication created at t0 (audience 80%); logical threads park at gau.afterRead, inside the injected clock's Now (outside the commit section) and at gau.beforeLock; a schedule of thread steps and clock advances is executed, then every thread finishes in index order; compared with the Lean interleaving model: final publication, every call's result and park order; systematic: caller A (acknowledge or update) advanced 0..4 steps, clock +0/+3, rival B (same-content update, body-changing update, acknowledge) runs completely, clock +0/+2, A finishes; random: 2..3 threads x 1..3 calls (update 45%: masks none/body/media_type/audience/audience.name, version none/init/bogus/of-a-body; acknowledge 55%: receipts ACCEPTED/REJECTED/NO_SIGNAL+reason, allow_acknowledged 35%), random schedules with clock advances; non-trivial = at least two threads step inside the schedule; distinct by request line"),
-			mon: res.Monitor("publication version/receipt stay consistent under overlapping calls", "stored publication, every returned publication and every Pull event (backpressure): version = md5(content) recomputed, publish time present, publish <= receipt time <= latest clock instant, receipt details only with a receipt time; a successful update returns a publish time given to that call and a reset receipt; a committed acknowledge returns its receipt/reason and a time given to that call; codes are ok/Aborted/FailedPrecondition; an update nobody overlapped is not Aborted; no hang, no panic")}
+			tie: res.Tie("publication.ModelServer overlapping Update/Acknowledge on one publication (forced schedules)", "K4", "one publication created at t0 (audience 80%); logical threads park at gau.afterRead, inside the injected clock's Now (outside the commit section) and at gau.beforeLock; a schedule of thread steps and clock advances is executed, then every thread finishes in index order; compared with the Lean interleaving model: final publication, every call's result and park order; systematic: caller A (acknowledge, update, or update conditional on the initial version against a rival that replaces it) advanced 0..4 steps, clock +0/+3, rival B (same-content update, body-changing update, acknowledge) runs completely, clock +0/+2, A finishes; random: 2..3 threads x 1..3 calls (update 45%: masks none/body/media_type/audience/audience.name, version none/init/bogus/of-a-body; acknowledge 55%: receipts ACCEPTED/REJECTED/NO_SIGNAL+reason, allow_acknowledged 35%), random schedules with clock advances; non-trivial = at least two threads step inside the schedule; distinct by request line"),
+			mon: res.Monitor("publication version/receipt stay consistent under overlapping calls", "stored publication, every returned publication and every Pull event (backpressure): version = md5(content) recomputed, publish time present, publish <= receipt time <= latest clock instant, receipt details only with a receipt time; a successful update returns a publish time given to that call and a reset receipt; a committed acknowledge returns its receipt/reason and a time given to that call; codes are ok/Aborted/FailedPrecondition; an update nobody overlapped is not Aborted; the version/acknowledge protocol on a (version, receipt) register that follows the committed calls in the order they returned: a call that names a version is applied to that version only, an ACCEPTED/REJECTED publication is not acknowledged again, the stored publication is the one the last committed call returned; no hang, no panic")}
 		bodies := []string{"hello", "world", "b3"}
 		auds := []string{"tenant", "screen"}
 		mkInit := func() pubCall {
@@ -491,7 +517,7 @@ func init() {
 			return k
 		}
 		// systematic forced overlaps
-		for _, a := range []string{"ack", "update"} {
+		for _, a := range []string{"ack", "update", "update@init"} {
 			for _, b := range []string{"same", "other", "ack"} {
 				for k := 0; k <= 4; k++ {
 					for _, d1 := range []int{0, 3} {
@@ -503,6 +529,9 @@ func init() {
 								ca.VRef = "init"
 							} else {
 								ca = mkUpdate(c.Init, rng.Intn(2) == 0)
+								if a == "update@init" {
+									ca.VRef = "init" // conditional on the version the rival is about to replace
+								}
 							}
 							switch b {
 							case "same":
@@ -510,6 +539,13 @@ func init() {
 								cb.VRef = ""
 							case "other":
 								cb = mkUpdate(c.Init, false)
+								if a == "update@init" {
+									// a rival that certainly makes another version: another body, written whatever the stored version is
+									for cb.Body == c.Init.Body {
+										cb.Body = pick(rng, bodies)
+									}
+									cb.VRef, cb.Mask = "", pick(rng, [][]string{nil, {"body"}, {"body", "media_type"}})
+								}
 							default:
 								cb = mkAck(c.Init)
 							}
